@@ -248,7 +248,7 @@ class Grid(col.MutableSequence):
         Retrieve the row at index.
         '''
         if isinstance(key, slice):
-            result=Grid(version=self.version,metadata=self.metadata,columns=self.column)
+            result=self._new_like()
             result._row=self._row[key]
             result._index=None
             return result
@@ -345,17 +345,28 @@ class Grid(col.MutableSequence):
             if not limit:
                 return self
             else:
-                result = Grid(version=self.version, metadata=self.metadata, columns=self.column)
+                result = self._new_like()
                 result.extend(self.__getitem__(slice(0,limit)))
                 return result
 
-        result = Grid(version=self.version, metadata=self.metadata, columns=self.column)
+        result = self._new_like()
         fn = filter_function(filter)
         for row in self._row:
             if fn(self, row):
                 result.append(row)
             if limit and len(result)==limit:
                 break
+        return result
+
+    def _new_like(self):
+        '''
+        A new grid without rows that has the version, the metadata and the
+        columns of this one.  A version that was detected (not declared by
+        the caller) stays a detected one: the new grid goes on detecting.
+        '''
+        result = Grid(version=self.version, metadata=self.metadata,
+                      columns=self.column)
+        result._version_given = self._version_given
         return result
 
     def _detect_or_validate(self, val):
